@@ -400,7 +400,35 @@ def format_precision(ctx):
     elif isinstance(asg[0].value, ast.BinOp) and norm(asg[0].value.left) == '-int(math.log10(self.network.denominator / denominator))' and isinstance(asg[0].value.right, ast.Constant) and isinstance(asg[0].value.op, (ast.Add, ast.Sub)):
         offs = asg[0].value.right.value * (1 if isinstance(asg[0].value.op, ast.Add) else -1)
     else:
-        ctx.undecided('Value.str: decimals formula not recognised: %s' % base)
+        # another way of writing the formula: evaluate the whole default-decimals block for every denominator of the table
+        tab = _table(ctx)
+        sat = Fraction(1, 10 ** 8)
+        lost = []
+        for d, sy in tab:
+            if d < sat:
+                continue
+            need, x = 0, d / sat
+            while x > 1:
+                x /= 10
+                need += 1
+            it = Interp(ctx.repo, 'values', self_cls='values:Value')
+            st = State(env={'self': S(SELF), 'decimals': None, 'denominator': float(d)})
+            st.heap[('attr', ('attr', SELF, 'network'), 'denominator')] = 1e-08
+            it.frames.append([])
+            try:
+                end = it.exec_block(blk[0].body, st)
+            except AnalysisError as e:
+                ctx.undecided('Value.str: decimals formula `%s` not evaluable for denominator %s: %s' % (base, sy or 1, str(e)[:80]))
+            got = end.env.get('decimals') if end is not None else None
+            if not isinstance(got, int):
+                ctx.undecided('Value.str: decimals formula `%s` gives %s for denominator %s' % (base, show(term(got))[:60], sy or 1))
+            if got < min(need, 8):
+                lost.append((sy or '1', got, need))
+        ctx.saw('default decimals: %s; denominators whose default format drops digits below the cap (symbol, printed, needed): %s' % (base, lost))
+        if lost:
+            ctx.violate(q, 'the default number of decimals `%s` prints %d decimals for the denominator %s, one smallest unit needs %d' % (base, lost[0][1], lost[0][0], lost[0][2]), asg[0],
+                        "Value.from_satoshi(123456789).str('c') is '123.45679 cBTC', which parses back to 123456790")
+        return
     caps = [s for s in blk[0].body if isinstance(s, ast.If) and isinstance(s.test, ast.Compare) and unparse(s.test.left) == 'decimals' and isinstance(s.test.ops[0], ast.Gt)
             and isinstance(s.test.comparators[0], ast.Constant) and len(s.body) == 1 and isinstance(s.body[0], ast.Assign) and unparse(s.body[0].targets[0]) == 'decimals' and isinstance(s.body[0].value, ast.Constant)]
     cap = caps[0].body[0].value.value if caps else None
@@ -497,6 +525,7 @@ AMOUNT_TARGETS = ('value', 'balance', 'input_total', 'output_total', 'fee', 'fee
 
 
 @PROP.obligation('C17.provider-rounding', canaries=[
+    mut.replace_expr('services.authproxy', 'AuthServiceProxy._get_response', 'json.loads(responsedata, parse_float=decimal.Decimal)', 'json.loads(responsedata)', 'node amounts decoded as binary floats'),
     mut.replace_expr('services.bitcoind', 'BitcoindClient._parse_transaction', "int(round(float(txi['vout'][i.output_n_int]['value']) / self.network.denominator))", "int(float(txi['vout'][i.output_n_int]['value']) * self.units)", 'bitcoind input values truncated'),
 ])
 def provider_rounding(ctx):
@@ -556,6 +585,27 @@ def provider_rounding(ctx):
                 ctx.violate(qual, 'a float amount is truncated, not rounded: `%s`' % norm(c)[:110], c, "an amount such as 0.29 coins becomes 28999999 units: one unit short")
     ctx.saw('%d float-based conversions in the service clients inspected' % n)
     ctx.floor(n, 15, 'float-based conversions')
+    # the node clients (bitcoind / litecoind / dogecoind) convert with int(amount * self.units) WITHOUT rounding: exact only because the
+    # JSON-RPC layer hands them decimal.Decimal amounts - every json.loads of services/authproxy.py parses floats as Decimal
+    unrounded = 0
+    for modname in ('services.bitcoind', 'services.litecoind', 'services.dogecoind'):
+        if modname not in ctx.repo.modules:
+            continue
+        for q, fn in ctx.repo.mod(modname).functions.items():
+            for c in ast.walk(fn):
+                if isinstance(c, ast.Call) and norm(c.func) == 'int' and len(c.args) == 1 and isinstance(c.args[0], ast.BinOp) and 'self.units' in norm(c.args[0]) and 'float(' not in norm(c.args[0]):
+                    unrounded += 1
+    ap = ctx.repo.mod('services.authproxy')
+    loads = [c for q, fn in ap.functions.items() for c in ast.walk(fn) if isinstance(c, ast.Call) and norm(c.func) == 'json.loads']
+    ctx.saw('%d unrounded int(amount * self.units) conversions in the node clients; %d json.loads in the JSON-RPC layer' % (unrounded, len(loads)))
+    if unrounded:
+        if not loads:
+            ctx.undecided('services.authproxy: decoding of the JSON-RPC answer not found')
+        for c in loads:
+            pf = next((k.value for k in c.keywords if k.arg == 'parse_float'), None)
+            ctx.require(pf is not None and norm(pf) in ('decimal.Decimal', 'Decimal'), 'services.authproxy:AuthServiceProxy._get_response',
+                        'the JSON-RPC answer is decoded with parse_float=%s: amounts reach the node clients as binary floats' % (norm(pf) if pf is not None else 'the default (float)'), c,
+                        'int(0.29 * 1e8) is 28999999: UTXO values and balances of an own node are one satoshi short for about 8% of the 8-decimal amounts')
 
 
 @PROP.obligation('C17.parameters-read', canaries=[
